@@ -1,7 +1,10 @@
 import Gtree.Model.Api
+import Gtree.Lemmas.JsonTree
 /-
   C04 — the formatted tree handed to the JSON / YAML / TOML encoder is isomorphic to the tree.
-  (The encoders themselves are third-party code: a parameter here, tested by decoding their output.)
+  The JSON encoder (`encoding/json` on the `jsonNode` struct) is modelled in `Gtree.Model.Json` and compared
+  byte for byte with the real output; the JSON theorems below are about that model.  The YAML and TOML
+  encoders are third-party code: a parameter here, tested by decoding their output.
 -/
 namespace Gtree
 
@@ -34,5 +37,41 @@ theorem C04_children_empty_iff (n : Bytes) (ks : List T) :
 theorem C04_one_value_per_root (inp : Input) (h : (generate inp).err = none) :
     (outputFormatted inp).1 = (generate inp).roots.map toFormatted ∧ (outputFormatted inp).2 = none := by
   simp [outputFormatted, h]
+
+/-! ### the JSON text (model of `encoding/json` on `jsonNode`, `Gtree.Model.Json`) -/
+namespace Json
+
+/-- C04 (JSON, well-formed and isomorphic): reading the printed stream value by value with the JSON reader
+    gives one record per root, in input order, and reading the records as trees gives back the forest:
+    names (quotes, backslashes, control characters, `<>&`, U+2028/9, any other scalar value), child order
+    and nesting. -/
+theorem C04_json_roundtrip (ts : List CT) :
+    (decodeStream (encodeRoots ts)).bind readAll = some ts := by
+  have h := parseLines_encodeRoots ts ((encodeRoots ts).length + 1)
+    (by
+      have := count_nl_encodeRoots ts
+      have := List.count_le_length (a := '\n') (l := encodeRoots ts)
+      omega)
+  simp [decodeStream, h, readAll_map_toJ]
+
+/-- every string is read back from its quoted form, whatever follows it -/
+theorem C04_json_string_roundtrip (s rest : List Char) : parseStr (escape s ++ '"' :: rest) = some (s, rest) :=
+  parseStr_escape s rest
+
+/-- one JSON value per line: the stream has exactly one line feed per root (none inside a value) -/
+theorem C04_json_one_line_per_root (ts : List CT) : (encodeRoots ts).count '\n' = ts.length :=
+  count_nl_encodeRoots ts
+
+/-- a `null` and an empty `children` list are the same tree to the reader -/
+theorem C04_json_null_is_empty (v : List Char) :
+    J.toCT (.obj (.cons "value".toList (.str v) (.cons "children".toList .null .nil))) =
+    J.toCT (.obj (.cons "value".toList (.str v) (.cons "children".toList (.arr .nil) .nil))) := by
+  simp [J.toCT, JL.toCTs]
+
+/-- non-vacuity: a name made of a quote, a backslash, a line feed, `<`, U+2028 and `é`, with a child -/
+example : (decodeStream (encodeRoots [.mk ['"', '\\', '\n', '<', Char.ofNat 0x2028, 'é'] [.mk ['x'] []]])).bind readAll
+    = some [.mk ['"', '\\', '\n', '<', Char.ofNat 0x2028, 'é'] [.mk ['x'] []]] := C04_json_roundtrip _
+
+end Json
 
 end Gtree
